@@ -88,6 +88,9 @@ struct Enc {
     cut: Option<Cut>,
     /// the file name is not valid UTF-8
     nonutf8_name: bool,
+    /// the whole text of the file, written as it is (the rows of the case are then what the csv reader
+    /// makes of it: the case supplies them)
+    raw: Option<String>,
 }
 
 /// where a gzip file is cut short
@@ -101,6 +104,9 @@ enum Cut {
     Frac(usize),
     /// drop this many bytes (1 ..= 8) of the CRC / length trailer
     Trailer(usize),
+    /// keep the first member and ONE byte of the second (a cut exactly at the end of a member would
+    /// leave a valid, shorter gzip file; with a single member this is the last byte dropped)
+    AfterFirstMember,
 }
 
 impl Enc {
@@ -123,6 +129,7 @@ impl Enc {
             members: 1,
             cut: None,
             nonutf8_name: false,
+            raw: None,
         }
     }
     fn random(rng: &mut Rng, n_named: usize, permute: bool) -> Enc {
@@ -149,6 +156,7 @@ impl Enc {
             members: if rng.chance(1, 5) { 2 + rng.below(3) } else { 1 },
             cut: None,
             nonutf8_name: false,
+            raw: None,
         }
     }
     fn descr(&self) -> String {
@@ -176,10 +184,11 @@ impl Enc {
                 Some(Cut::Early(k)) => format!("cE{}", k),
                 Some(Cut::Frac(k)) => format!("cF{}", k),
                 Some(Cut::Trailer(k)) => format!("cT{}", k),
+                Some(Cut::AfterFirstMember) => "cM".to_string(),
                 None => String::new(),
             },
             if self.nonutf8_name { "U" } else { "" },
-        )
+        ) + if self.raw.is_some() { "W" } else { "" }
     }
 }
 
@@ -203,6 +212,9 @@ fn extra_cell(rng: &mut Rng) -> String {
 fn render(rng: &mut Rng, cols: &[&str], rows: &[(Vec<String>, bool)], enc: &Enc) -> String {
     if enc.empty {
         return String::new();
+    }
+    if let Some(raw) = &enc.raw {
+        return raw.clone();
     }
     let nl = if enc.cr_only { "\r" } else if enc.crlf { "\r\n" } else { "\n" };
     let n_named = cols.len();
@@ -269,21 +281,32 @@ fn gz_member(bytes: &[u8]) -> Vec<u8> {
 /// the bytes of a gzip file holding `text` in `members` members (split at arbitrary byte positions,
 /// also inside a line), cut short as asked
 fn gz_bytes(text: &str, members: usize, cut: Option<Cut>) -> Vec<u8> {
-    let raw = text.as_bytes();
+    gz_bytes_raw(text.as_bytes(), members, cut)
+}
+
+fn gz_bytes_raw(raw: &[u8], members: usize, cut: Option<Cut>) -> Vec<u8> {
     let m = members.max(1);
     let mut out: Vec<u8> = vec![];
+    let mut ends: Vec<usize> = vec![];
     for k in 0..m {
         let a = raw.len() * k / m;
         let b = raw.len() * (k + 1) / m;
         out.extend(gz_member(&raw[a..b]));
+        ends.push(out.len());
     }
-    let keep = match cut {
+    let mut keep = match cut {
         None => out.len(),
         Some(Cut::Header(k)) => k.min(out.len()),
         Some(Cut::Early(k)) => (10 + k).min(out.len() - 1),
         Some(Cut::Frac(k)) => (out.len() * k / 1000).clamp(2, out.len() - 1),
         Some(Cut::Trailer(k)) => out.len() - k.clamp(1, 8),
+        Some(Cut::AfterFirstMember) => ends[0].min(out.len() - 1),
     };
+    // a cut that lands exactly on the end of a member leaves a VALID (shorter) gzip file, not a file cut
+    // short: keep one byte of the next member so that the file really is unreadable
+    if cut.is_some() && keep < out.len() && ends.contains(&keep) {
+        keep += 1;
+    }
     out.truncate(keep);
     out
 }
@@ -309,9 +332,20 @@ fn write_enc(path: &Path, text: &str, gz: bool, enc: &Enc) {
     }
 }
 
-/// the csv reader finds a header row: some byte other than a line terminator (after the BOM)
-fn has_header(text: &str) -> bool {
-    text.trim_start_matches('\u{feff}').bytes().any(|b| b != b'\n' && b != b'\r')
+/// the loader accepts the header row: the text has a first record (after the BOM and leading line
+/// terminators) and that record names every required column (names are compared as written: the csv
+/// reader unquotes them but does not trim them).  Computed from the text alone.
+fn header_ok(text: &str, required: &[&str]) -> bool {
+    let t = text.trim_start_matches('\u{feff}').trim_start_matches(|c| c == '\n' || c == '\r');
+    let first = t.split(|c| c == '\n' || c == '\r').next().unwrap_or("");
+    if first.is_empty() {
+        return false;
+    }
+    let names: Vec<String> = first
+        .split(',')
+        .map(|n| if n.len() >= 2 && n.starts_with('"') && n.ends_with('"') { n[1..n.len() - 1].to_string() } else { n.to_string() })
+        .collect();
+    required.iter().all(|r| names.iter().any(|n| n == r))
 }
 
 fn f32_text(x: f32) -> String {
@@ -381,6 +415,10 @@ impl Case {
             && !self.v_enc.cr_only
             && self.e_enc.cut.is_none()
             && self.v_enc.cut.is_none()
+            && self.e_enc.raw.is_none()
+            && self.v_enc.raw.is_none()
+            && self.e_enc.drop_col.is_none()
+            && self.v_enc.drop_col.is_none()
             && self.n_v.map(|n| n == nv).unwrap_or(true)
     }
 }
@@ -439,8 +477,8 @@ fn write_case(dir: &Path, tag: &str, rng_seed: &Rng, case: &Case, e_gz: bool, v_
         v_path,
         e_lines: text_lines(&e_text),
         v_lines: text_lines(&v_text),
-        e_header: has_header(&e_text),
-        v_header: has_header(&v_text),
+        e_header: header_ok(&e_text, &E_COLS),
+        v_header: header_ok(&v_text, &V_COLS),
     }
 }
 
@@ -858,7 +896,16 @@ fn special_numbers(rng: &mut Rng, edges: &mut [ERow], vertices: &mut [VRow]) {
                     // another spelling of the id or of an endpoint
                     let col = rng.below(3);
                     let val = [edges[a].id, edges[a].src, edges[a].dst][col];
-                    edges[a].alt = Some((col, format!("{}{}", ids[rng.below(3)], val)));
+                    // the csv crate's integer deserializer also reads a hexadecimal 0x literal (lower- or
+                    // upper-case digits); the vertex file's hand-written decoder does not (vertex-bad-cell)
+                    edges[a].alt = Some((
+                        col,
+                        match rng.below(5) {
+                            3 => format!("0x{:x}", val),
+                            4 => format!("0x{:X}", val),
+                            k => format!("{}{}", ids[k], val),
+                        },
+                    ));
                 }
                 _ => {
                     let (d, t) = dists[rng.below(dists.len())];
@@ -931,9 +978,10 @@ const MALFORMED: [&str; 20] = [
 
 fn bad_text(rng: &mut Rng, col_is_float: bool) -> String {
     if col_is_float {
-        ["abc", "", "1,5", "--3"][rng.below(2)].to_string()
+        // ("1,5" is two cells: the row has one field too many)
+        ["abc", "", "1,5", "--3", "1.5.2", "0x10"][rng.below(6)].to_string()
     } else {
-        ["-1", "1.5", "abc", "", "18446744073709551616"][rng.below(5)].to_string()
+        ["-1", "1.5", "abc", "", "18446744073709551616", "0xg", "1e3"][rng.below(7)].to_string()
     }
 }
 
@@ -1035,7 +1083,8 @@ fn gen_malformed(rng: &mut Rng, which: &'static str) -> Case {
         "vertex-bad-cell" => {
             let a = rng.below(nv);
             let col = rng.below(3);
-            let t = bad_text(rng, col != 0);
+            // a hexadecimal vertex id is read in the edge file and refused here
+            let t = if col == 0 && rng.chance(1, 4) { format!("0x{:x}", c.vertices[a].id) } else { bad_text(rng, col != 0) };
             c.vertices[a].bad = Some((col, t));
         }
         "short-row" => {
@@ -1089,18 +1138,18 @@ fn gen_malformed(rng: &mut Rng, which: &'static str) -> Case {
             }
         }
         "gzip-truncated" => {
-            let cut = match rng.below(6) {
-                0 => Cut::Header(2 + rng.below(8)),
+            let cut = match rng.below(7) {
+                0 => Cut::Header(1 + rng.below(9)),
                 1 => Cut::Early(rng.below(11)),
                 2 => Cut::Trailer(1 + rng.below(8)),
+                3 => Cut::AfterFirstMember,
                 _ => Cut::Frac(1 + rng.below(999)),
             };
-            if rng.chance(1, 2) {
-                c.e_enc.gz = true;
-                c.e_enc.cut = Some(cut);
-            } else {
-                c.v_enc.gz = true;
-                c.v_enc.cut = Some(cut);
+            let enc = if rng.chance(1, 2) { &mut c.e_enc } else { &mut c.v_enc };
+            enc.gz = true;
+            enc.cut = Some(cut);
+            if cut == Cut::AfterFirstMember {
+                enc.members = 2 + rng.below(3);
             }
         }
         "huge-id" => {
@@ -1347,6 +1396,60 @@ fn corpus() -> Vec<Case> {
         e_enc.empty = true;
         out.push(Case { kind: "empty-file", edges: w_edges.clone(), vertices: grid_vertices(3), n_e: Some(40), n_v: Some(3), e_enc, v_enc: Enc::plain(3), verbose: None });
     }
+    // W15: a gzip edge file cut after its FIRST byte (0x1f), explicit and scanned counts (was read as plain
+    // text - a header row of one control character - and loaded as an empty edge list)
+    for explicit in [true, false] {
+        let mut e_enc = Enc::plain(4);
+        e_enc.gz = true;
+        e_enc.cut = Some(Cut::Header(1));
+        out.push(Case { kind: "gzip-truncated", edges: w_edges.clone(), vertices: grid_vertices(3), n_e: if explicit { Some(40) } else { None }, n_v: if explicit { Some(3) } else { None }, e_enc, v_enc: Enc::plain(3), verbose: None });
+    }
+    // W16: a two-member gzip edge file cut one byte after the end of its first member
+    {
+        let mut e_enc = Enc::plain(4);
+        e_enc.gz = true;
+        e_enc.members = 2;
+        e_enc.cut = Some(Cut::AfterFirstMember);
+        out.push(Case { kind: "gzip-truncated", edges: w_edges.clone(), vertices: grid_vertices(3), n_e: None, n_v: None, e_enc, v_enc: Enc::plain(3), verbose: None });
+    }
+    // W17: files that are nothing but a header row WITHOUT the required column names (semicolons; another
+    // language), and W18: a file without a header row whose only record is taken for one (all were loaded
+    // as empty lists; the listed record of W18 was lost)
+    for (on_vertex, text) in [
+        (false, "edge_id;src_vertex_id;dst_vertex_id;distance\n"),
+        (false, "id,from,to,length\n"),
+        (false, "0,0,1,7.5\n"),
+        (false, "edge_id, src_vertex_id, dst_vertex_id, distance\n"),
+        (true, "vertex_id;x;y\n"),
+        (true, "0,-105.2,39.7\n"),
+        (true, "vertex_id,lon,lat\n"),
+    ] {
+        let mut e_enc = Enc::plain(4);
+        let mut v_enc = Enc::plain(3);
+        if on_vertex {
+            v_enc.raw = Some(text.to_string());
+        } else {
+            e_enc.raw = Some(text.to_string());
+        }
+        out.push(Case {
+            kind: "header-without-columns",
+            edges: vec![],
+            vertices: if on_vertex { vec![] } else { grid_vertices(3) },
+            n_e: Some(0),
+            n_v: if on_vertex { Some(0) } else { None },
+            e_enc,
+            v_enc,
+            verbose: None,
+        });
+    }
+    // a header row alone WITH the required names is a valid empty list (quoted names, another order, BOM)
+    {
+        let mut e_enc = Enc::plain(4);
+        e_enc.raw = Some("\u{feff}\"distance\",dst_vertex_id,\"edge_id\",name,src_vertex_id\n".to_string());
+        let mut v_enc = Enc::plain(3);
+        v_enc.raw = Some("y,x,vertex_id".to_string());
+        out.push(Case { kind: "header-only", edges: vec![], vertices: vec![], n_e: None, n_v: None, e_enc, v_enc, verbose: None });
+    }
     // an empty file whose name is not UTF-8, scanned counts (the error text has no path to show)
     for on_vertex in [false, true] {
         let mut e_enc = Enc::plain(4);
@@ -1562,6 +1665,12 @@ fn run_load_case(ctx: &mut Ctx, idx: usize, dir: &Path, case: &Case, rng: &Rng) 
                         case.vertices.len()
                     ),
                 );
+            } else if !(case.e_enc.empty || case.v_enc.empty) && (!w.e_header || !w.v_header) {
+                ctx.fail(
+                    idx,
+                    "read_utils/header-without-columns-accepted",
+                    format!("a header row does not name the required columns (edge file ok: {}, vertex file ok: {}) but the load succeeded with {} edges and {} vertices", w.e_header, w.v_header, g.n_edges(), g.n_vertices()),
+                );
             } else if case.e_enc.empty || case.v_enc.empty {
                 ctx.fail(
                     idx,
@@ -1706,21 +1815,7 @@ fn run_table_case(ctx: &mut Ctx, idx: usize, dir: &Path, rng: &mut Rng, kind: us
     let readable = variant != 6 && variant != 8;
     if variant != 8 {
         if gz {
-            // SAFETY of the text: members and cuts work on bytes
-            let text_bytes = bytes.clone();
-            let m = members.max(1);
-            let mut out: Vec<u8> = vec![];
-            for k in 0..m {
-                out.extend(gz_member(&text_bytes[text_bytes.len() * k / m..text_bytes.len() * (k + 1) / m]));
-            }
-            let keep = match cut {
-                None => out.len(),
-                Some(Cut::Header(k)) => k.min(out.len()),
-                Some(Cut::Early(k)) => (10 + k).min(out.len() - 1),
-                Some(Cut::Frac(k)) => (out.len() * k / 1000).clamp(2, out.len() - 1),
-                Some(Cut::Trailer(k)) => out.len() - k.clamp(1, 8),
-            };
-            out.truncate(keep);
+            let out = gz_bytes_raw(&bytes, members, cut);
             write_bytes(&path, &out);
         } else {
             write_bytes(&path, &bytes);
